@@ -29,8 +29,32 @@ def run(ctx):
     D = models.UnitGroupDomain(qv)
     N = qv ** 12 - 1
     zf = z3.Bool('f_is_zero')
-    # code may inspect the Fq6 halves of the input (f = c0 + c1 w): c1 = 0 <=> f in Fq6 <=> f = 0 or (q^6+1) | exponent
+    # The input is f = g^e for a SYMBOLIC integer e (g a formal generator of the cyclic group Fq12^*): every value the code computes
+    # is g^(c*e) with c a concrete integer (all operations are linear on exponents), and every data-dependent test the code may make
+    # -- is_zero / == on Fq12, "c1 = 0" (f in Fq6), "c0 = 0" (f in w*Fq6) -- is a congruence on c*e, i.e. a predicate on e.
+    e_sym = z3.Int('e')
+    M6 = qv ** 6 + 1
     from mirsym.sym import Opaque
+    import math
+
+    def times_e(c):
+        """c * e for an exponent coefficient c (python int, or an if-then-else tree of them produced by a merge)"""
+        if isinstance(c, int):
+            return z3.IntVal(c) * e_sym
+        if z3.is_int_value(c):
+            return c * e_sym
+        if z3.is_app(c) and c.decl().kind() == z3.Z3_OP_ITE:
+            return z3.If(c.arg(0), times_e(c.arg(1)), times_e(c.arg(2)))
+        return c * e_sym
+
+    def congruent(c, residue, modulus):
+        """c * e == residue (mod modulus) as a predicate on e"""
+        if isinstance(c, int) and residue == 0:
+            d = modulus // math.gcd(c % modulus, modulus)
+            return z3.BoolVal(True) if d == 1 else (e_sym % z3.IntVal(d) == 0)
+        if isinstance(c, int):
+            return (z3.IntVal(c % modulus) * e_sym) % z3.IntVal(modulus) == z3.IntVal(residue)
+        return times_e(c) % z3.IntVal(modulus) == z3.IntVal(residue)
 
     def fe_field(v, i):
         if isinstance(v, GE) and v.ty == 'fq12::Fq12' and i in (0, 1):
@@ -42,12 +66,30 @@ def run(ctx):
         t = _d(ex_, st_, a[0])
         if isinstance(t, Opaque) and t.what[0] == 'fq6-half':
             _, i, v = t.what
-            e = v.c[0]
+            c = v.c[0]
             if i == 1:
-                return z3.Or(C.mk(v.tag), z3.BoolVal(e % (qv ** 6 + 1) == 0))          # c1 = 0  <=>  f in Fq6
-            return z3.Or(C.mk(v.tag), z3.BoolVal(False))                               # c0 = 0 for a unit: f in w*Fq6, not modelled further
+                return z3.Or(C.mk(v.tag), congruent(c, 0, M6))                 # c1 = 0  <=>  f = 0 or f in Fq6   <=>  (q^6+1) | c e
+            return z3.Or(C.mk(v.tag), congruent(c, M6 // 2, M6))               # c0 = 0  <=>  f = 0 or f in w Fq6 <=>  f^(q^6-1) = -1
         return NotImplemented
-    ex = C.new_executor(ctx, [(r'<fq6::Fq6 as (?:ff::)?Field>::is_zero', h_fq6_is_zero)] + D.models())
+
+    def h_is_zero(ex_, st_, m, a):
+        from mirsym.models import deref as _d
+        v = _d(ex_, st_, a[0])
+        return C.mk(v.tag) if isinstance(v, GE) else NotImplemented
+
+    def h_eq(ex_, st_, m, a):
+        from mirsym.models import deref as _d
+        x, y = _d(ex_, st_, a[0]), _d(ex_, st_, a[1])
+        if not (isinstance(x, GE) and isinstance(y, GE)):
+            return NotImplemented
+        tx, ty_ = C.mk(x.tag), C.mk(y.tag)
+        return z3.Or(z3.And(tx, ty_), z3.And(z3.Not(tx), z3.Not(ty_), congruent(x.c[0] - y.c[0], 0, N)))
+
+    def h_ne(ex_, st_, m, a):
+        r_ = h_eq(ex_, st_, m, a)
+        return NotImplemented if r_ is NotImplemented else z3.Not(r_)
+    ex = C.new_executor(ctx, [(r'<fq6::Fq6 as (?:ff::)?Field>::is_zero', h_fq6_is_zero), (r'<fq12::Fq12 as (?:ff::)?Field>::is_zero', h_is_zero),
+                              (r'<fq12::Fq12 as PartialEq>::eq', h_eq), (r'<fq12::Fq12 as PartialEq>::ne', h_ne)] + D.models())
     ex.fe_field = fe_field
     st = State()
     rf = ex.alloc(st, D.mk(1, zf))
@@ -56,15 +98,25 @@ def run(ctx):
         raise Inconclusive('final_exponentiation returned %r' % (res,))
     out = res.payload['Some'][0]
     E = out.c[0]
+    want = 3 * ((q ** 12 - 1) // r)
+    symbolic_E = None
     if not isinstance(E, int):
-        # the exponent depends on a case split (e.g. on the zero flag): it must be the same integer on every path where the result is Some
-        Es = z3.simplify(z3.substitute(E, (zf, z3.BoolVal(False)))) if z3.is_expr(E) else E
+        Es = z3.simplify(E) if z3.is_expr(E) else E
         if z3.is_expr(Es) and z3.is_int_value(Es):
-            chk.must_unsat('the exponent of the result does not depend on the case split when f != 0', z3.And(z3.Not(zf), res.disc == 1, E != Es), group='exponent')
             E = Es.as_long()
         else:
-            raise Inconclusive('result exponent is not a single integer: %s' % str(E)[:200])
-    want = 3 * ((q ** 12 - 1) // r)
+            # the exponent coefficient depends on data-dependent tests (predicates on e, on the zero flag): the claim is then
+            # for every e:  E(e) * e = want * e  (mod q^12-1)  whenever the result is Some
+            symbolic_E = E
+            chk.must_unsat('for every input f = g^e != 0: result exponent E(e)*e == (3(q^12-1)/r)*e (mod q^12-1) on every branch',
+                           z3.And(z3.Not(zf), res.disc == 1, (times_e(E) - z3.IntVal(want) * e_sym) % z3.IntVal(N) != 0), group='exponent', meta='symbolic-exponent')
+            chk.must_unsat('result is None exactly when f = 0', z3.Xor(res.disc == 0, zf), group='case-structure')
+            chk.panic_obligations(ex, 'final_exponentiation')
+            # the generic branch (e = 1: no special structure) still has to give the exact integer
+            Eg = z3.simplify(z3.substitute(E, (e_sym, z3.IntVal(1)), (zf, z3.BoolVal(False))))
+            E = Eg.as_long() if z3.is_int_value(Eg) else None
+            if E is None:
+                raise Inconclusive('result exponent on the generic branch is not an integer: %s' % str(Eg)[:200])
     chk.bounds = {'loops': 'exp_by_x: pow over 64 exponent bits, applied as multiplication of the exponent (leaf contract of Field::pow)',
                   'inputs': 'all units of Fq12 (formal generator) and the zero element (symbolic flag)'}
     Ez, Nz = z3.IntVal(E), z3.IntVal(N)
@@ -75,10 +127,12 @@ def run(ctx):
                        Ez % z3.IntVal(q ** d - 1) != 0, group='exponent')
     chk.must_unsat('E != 0 mod (q^12-1): the map is not constant', Ez % Nz == 0, group='exponent')
     chk.must_unsat('gcd structure: E = 3 * (q^12-1)/r exactly as integers below the modulus', Ez != z3.IntVal(want % N), group='exponent')
-    chk.must_unsat('result is None exactly when f = 0', z3.Xor(res.disc == 0, zf), group='case-structure')
+    if symbolic_E is None:
+        chk.must_unsat('result is None exactly when f = 0', z3.Xor(res.disc == 0, zf), group='case-structure')
     chk.must_sat('both outcomes reachable (Some)', res.disc == 1)
     chk.must_sat('both outcomes reachable (None)', res.disc == 0)
-    chk.panic_obligations(ex, 'final_exponentiation')
+    if symbolic_E is None:
+        chk.panic_obligations(ex, 'final_exponentiation')
     chk.extra['exponent_bits'] = int(E).bit_length()
     chk.extra['group_ops_interpreted'] = D.ops
     chk.assumptions += ['Fq12 mul/square/inverse/conjugate/frobenius_map/pow act on exponents as x+y, 2x, -x, q^6 x, q^k x, e x '
@@ -88,7 +142,16 @@ def run(ctx):
     chk.add_executor(ex)
     chk.add_executor(ex0)
     chk.discharge()
+    bad = native_differential(ctx, want)
+    for (nm, x, got, wtxt) in bad[:3]:
+        ctx.violation('final_exp-native:' + nm, 'final_exponentiation(%s) differs from f^(3(q^12-1)/r): got %s..., want %s...' % (nm, got[:40], wtxt[:40]),
+                      {'input_class': nm, 'input': [[list(f2_) for f2_ in h] for h in x], 'got': got, 'expected': wtxt, 'profile': 'release'})
     for o in chk.failed():
+        if o.meta == 'symbolic-exponent' and not bad:
+            # the solver's e has no native counterpart unless one of the structured inputs shows the difference
+            ctx.inconclusive('solver counterexample for %s is not reproduced by any structured native input' % o.name)
+            o.handled = True
+            continue
         o.handled = True
         ctx.violation('final_exp:' + o.name[:40], 'final exponentiation: %s fails; computed exponent E=%s...' % (o.name, hex(E)[:40]),
                       {'obligation': o.name, 'exponent_hex': hex(E), 'expected_hex': hex(want % N)})
@@ -97,6 +160,47 @@ def run(ctx):
             chk.ground_handled = getattr(chk, 'ground_handled', {})
             chk.ground_handled[g[0]] = True
             ctx.violation('final_exp-ground:' + g[0][:30], 'constant mismatch: %s (%s)' % (g[0], g[2]), {'fact': g[0], 'detail': g[2]})
+
+
+def native_differential(ctx, want):
+    """supplementary oracle and replay target for solver counterexamples: the native final_exponentiation on structured inputs -- zero, +-1,
+    the tower generators u, v, w, elements of Fq, Fq2, Fq6, of w*Fq6 (zero Fq6 component), random elements -- against f^(3(q^12-1)/r)
+    computed with the independent big-integer tower of mirsym/ref.py"""
+    import random
+    from mirsym import load
+    rnd = random.Random(ctx.seed * 31337 + 12)
+    q = ref.Q
+
+    def rf2():
+        return (rnd.randrange(q), rnd.randrange(q))
+
+    def rf6():
+        return (rf2(), rf2(), rf2())
+    Z2, Z6 = ref.F2_ZERO, ref.F6_ZERO
+    cases = [('zero', ref.F12_ZERO), ('one', ref.F12_ONE), ('minus one', ((( q - 1, 0), Z2, Z2), Z6)), ('u', (((0, 1), Z2, Z2), Z6)),
+             ('v', ((Z2, ref.F2_ONE, Z2), Z6)), ('w', (Z6, ref.F6_ONE)), ('w * Fq6 element', (Z6, rf6())), ('Fq element', (((rnd.randrange(1, q), 0), Z2, Z2), Z6)),
+             ('Fq2 element', ((rf2(), Z2, Z2), Z6)), ('Fq6 element', (rf6(), Z6)), ('random', (rf6(), rf6()))]
+    if ctx.tier != 'quick':
+        cases += [('w * Fq2 element', (Z6, (rf2(), Z2, Z2))), ('c0 in Fq2, c1 random', ((rf2(), Z2, Z2), rf6())), ('random 2', (rf6(), rf6()))]
+
+    def flat12(x):
+        return [c for h in x for f2_ in h for c in f2_]
+    n = load.Native('release')
+    try:
+        outs = n.run(['final_exp ' + ' '.join('%x' % c for c in flat12(x)) for _, x in cases])
+    finally:
+        n.close()
+    bad = []
+    for (nm, x), o in zip(cases, outs):
+        if x == ref.F12_ZERO:
+            wtxt = 'none'
+        else:
+            wtxt = 'some ' + ' '.join('%096x' % c for c in flat12(ref.f12_pow(x, want)))
+        if o.strip() != wtxt:
+            bad.append((nm, x, o.strip(), wtxt))
+    ctx.chk.extra['native_differential'] = {'cases': [c[0] for c in cases], 'disagreements': [b[0] for b in bad],
+                                            'role': 'supplementary oracle / replay target (sampling on structured inputs); the deciding method is the solver run'}
+    return bad
 
 
 def _limbs_int(v):
